@@ -731,6 +731,21 @@ class CallMixin:
 
     # ---------------------------------------------------------------- externals
     def call_external(self, dotted, args, kwargs, node):
+        if dotted == "functools.reduce" and len(args) in (2, 3) and not kwargs:
+            seq = args[1]
+            if seq.t and seq.t[0] in ("tuple", "list") and not any(x and x[0] == "star" for x in seq.t[1]) and len(seq.t[1]) <= 32:
+                # a fold over a table of known length: the function applied row by row
+                ety = [t[1] for t in seq.ty if t[0] == "elemty"]
+                rows = [V(t, ety, seq.dep) for t in seq.t[1]]
+                if len(args) == 3:
+                    acc = args[2]
+                elif rows:
+                    acc, rows = rows[0], rows[1:]
+                else:
+                    self.raise_exc("TypeError", node, explicit=False)
+                for r in rows:
+                    acc = self.call_value(args[0], [acc, r], {}, node)
+                return acc
         if dotted == "functools.partial" and args:
             t = ("partial", args[0].t, tuple(a.t for a in args[1:]), tuple(sorted((k, v.t) for k, v in kwargs.items())), self.fresh(node))
             self.partials[t] = (args[0], list(args[1:]), dict(kwargs))
